@@ -36,7 +36,7 @@ claim("C05",
       "DESIGN.md §3 C05")
 claim("C13",
       "membership-guard dominance (not-found outcome of a compare loop) + same-step recording + persisted-under-the-same-key value flow + sibling agreement of ReportFailure implementations + multi-instance-goroutine atomicity",
-      "For every selection site of every replicating algorithm, on every path: select => filtered against the sent list => recorded in it => persisted under the key it is read from; the previous node is recorded in the same list on reception; every algorithm that keeps such a list removes exactly the failed peer on failure (the implementations are cross-checked against each other); failure reports are serialised; direct delivery bypasses the algorithm.",
+      "For every selection site of every replicating algorithm, on every path: select => filtered against the sent list => recorded in it => persisted under the key it is read from; the previous node is recorded in the same list on reception; every algorithm that keeps such a list removes exactly the failed peer on failure (the implementations are cross-checked against each other); failure reports are serialised; direct delivery bypasses the algorithm; while any NotifyNewBundle implementation overwrites per-bundle state unconditionally, the Core announces a bundle only when it is new (after numbering in SendBundle / behind the known-bundle test of receive).",
       "Not decided: behaviour over whole histories and restarts beyond where the list lives (store item vs. memory).",
       "DESIGN.md §3 C13")
 claim("C20",
@@ -81,7 +81,7 @@ claim("C11",
       "DESIGN.md §3 C11")
 claim("C12",
       "ordering / error-discipline rules on MTCPClient.Send (must-pass, guarded store into the named result, defer-before-write), framing agreement of client and server, guarded-store typestate of the BBC reader, sibling agreement of the sequence successor, resolved-constant bit-layout rule, guarded-call dominance in the connector",
-      "Necessary conditions on every path: the MTCP frame header announces exactly the serialised length and is followed by those bytes and a probe; each step's error ends the send and reaches the PeerDisappeared report; the server skips zero-length frames and reports only parsed bundles; a BBC fragment's payload is appended only after all four checks, sequence numbers advance identically on both sides within the field width, header masks are disjoint and agree, a bundle is reported only when finished and parsed and every error exit broadcasts a failure fragment.",
+      "Necessary conditions on every path: the MTCP frame header announces exactly the serialised length and is followed by those bytes, a flush, and then a zero-length probe written to the raw connection in a write of its own (roles identified by callee and argument, order by must-pass); each step's error ends the send and reaches the PeerDisappeared report; the server skips zero-length frames and reports only parsed bundles; a BBC fragment's payload is appended only after all four checks, sequence numbers advance identically on both sides within the field width, header masks are disjoint and agree, a bundle is reported only when finished and parsed and every error exit broadcasts a failure fragment.",
       "Not decided: stream order preservation, behaviour under arbitrary loss/duplication beyond the single-fragment checks, the xz library.",
       "DESIGN.md §3 C12")
 claim("C17",
